@@ -15,8 +15,8 @@ files = re.findall(r"^diff --git a/(\S+)", patch, re.M)
 demos = [f for f in os.listdir(d) if f.endswith("_test.go")]
 meta = {
     "property": pid,
-    "round": 2 if suf else 1,
-    "source": "independent sub-agent given only the property text, a description of the round-1 change to avoid, and a scratch worktree",
+    "round": int(suf[2:]) if suf.startswith("-r") else 1,
+    "source": "independent sub-agent given only the property text, a description of the earlier rounds' changes to avoid, and a scratch worktree",
     "files_changed": files,
     "demonstration": demos,
     "needs_to_manifest": "see NOTES.md (written by the sub-agent) and ../STATUS.md",
